@@ -1,5 +1,6 @@
 import TexcraftModel.Lemmas.C03
 import TexcraftModel.Lemmas.C03Sched
+import TexcraftModel.Lemmas.C03Bytes
 
 /-! # C03 — lexing follows TeX's scanner; every token traces to its source position
 
@@ -166,5 +167,65 @@ example :
     Spec.specSched sched false "\\m@".toList =
       [.token (.cs ['m']) ⟨1, 0, "\\m@".toList⟩, .token (.chr '@' .letter) ⟨1, 2, "\\m@".toList⟩,
        .endOfInput] := by decide +kernel
+
+/-! ## Byte positions (deepening round)
+
+`Model/C03Bytes.lean` transcribes `RawLexer` with the byte offsets the code really has
+(`next_line`, `pos`, `start`, `end`, `char_2_start`, `char_3_start`), every `&s[p..]` /
+`&s[a..b]` with its panic off a character boundary, `advance`'s `unwrap`, the `unsafe` byte write
+and `replace_range` of the `^^` rewrite (`none` = any of these goes wrong), and the `Lexer` on
+top of it. -/
+
+/-- **The byte-level lexer never slices off a character boundary** (nor writes into a multi-byte
+character, nor unwraps `None` in `advance`), for arbitrary multi-byte text, and it delivers
+exactly what the character-level model delivers. This replaces the two facts of `utf8_boundary`
+by a proof over the transcribed offset arithmetic. -/
+theorem blex_eq_lex (cfg : Cfg) (rep : Bool) (src : List Char) :
+    Bytes.bLexAll cfg rep src = some (lexAll cfg rep src) :=
+  Bytes.bLexAll_eq cfg rep src
+
+/-- Hence the byte-level lexer with the tracer is the TeX scanner with positions. -/
+theorem blex_eq_spec (cfg : Cfg) (rep : Bool) (src : List Char) :
+    (Bytes.bLexAll cfg rep src).map (List.map (Res.map (trace src))) = some (Spec.specAll cfg rep src) := by
+  rw [blex_eq_lex, ← lex_eq_spec]; rfl
+
+/-- **Every reported position lies in the source**: for every token and every invalid character
+the lexer delivers, `Tracer::trace` of its key is `(n, col, text)` where `text` is the `n`-th
+line of the source (lines ended by LF) and `col` is a column of that line, at most the position
+of its newline (where an end-line character is reported). -/
+theorem positions_in_source (cfg : Cfg) (rep : Bool) (src : List Char) :
+    ∀ r ∈ lexTraced cfg rep src, ∀ p, r.pos? = some p →
+      1 ≤ p.line ∧ (Spec.splitLines src)[p.line - 1]? = some p.text ∧ p.col ≤ p.text.length := by
+  rw [lex_eq_spec]
+  exact lines_positions cfg rep (Spec.splitLines src) 1
+
+/-- **Why mutant 23 of the sweep is equivalent** (`next_line = end + num_spaces.max(1)`): same
+state after `start_new_line` except `next_line`, which differs only when the source is used up
+(`len` against `len + 1`), where the only reader of `next_line`, the test
+`next_line >= source_code.len()`, gives the same answer. -/
+theorem equiv_mutant_23 (cfg : Cfg) {b : Bytes.BRaw} {r : Raw} (h : Bytes.Rep b r) :
+    ∃ m b' n, b.startNewLine cfg = some (m, b') ∧
+      b.startNewLine23 cfg = some (m, { b' with nextLine := n }) ∧
+      (n = b'.nextLine ∨ (b'.nextLine = byteLen b.src ∧ n = byteLen b.src + 1)) :=
+  Bytes.mutant23_equiv cfg h
+
+/-- **Why mutant 25 of the sweep is equivalent**: the reordered, guarded loop of `Tracer::trace`
+computes the same triple from every index at or before the wanted offset (it starts at 0). -/
+theorem equiv_mutant_25 (off : Nat) (content : List Char) :
+    traceLoop25 off 0 1 0 content content = traceLoop off 0 1 0 content content :=
+  traceLoop25_eq off content 0 1 0 content (Nat.zero_le _)
+
+/-- Wide characters around an expanded code, byte level: `é^^M€` (the `^^M` is rewritten in
+place between a 2-byte and a 3-byte character). -/
+example : Bytes.bLexAll plain true "é^^M€".toList = some (lexAll plain true "é^^M€".toList) :=
+  blex_eq_lex _ _ _
+
+example : (Bytes.bLexAll plain true "é^^M€".toList).map List.length = some 3 := by decide +kernel
+
+/-- The panic is really modelled: one byte into `é` is not a boundary (`&"éa"[1..]` panics), two
+bytes is; and the `unsafe` write refuses a multi-byte character. -/
+example : Bytes.sliceFrom "éa".toList 1 = none ∧ Bytes.sliceFrom "éa".toList 2 = some ['a'] ∧
+    Bytes.writeAscii "éa".toList 0 'M' = none ∧ Bytes.writeAscii "éa".toList 2 'M' = some ['é', 'M'] := by
+  decide
 
 end C03
